@@ -66,7 +66,7 @@ ROWS = {
        'cross-checked against a Lean RFC 1321 implementation; CPython struct/array semantics modelled',
   tech='Lean 4 proof (byte-level refinement to the packet figure) + translator + differential correspondence through a fake socket'),
  'C06': dict(
-  text='18 Lean theorems about the model of establish_session / the retry loop / requests / close_session against a '
+  text='27 Lean theorems about the model of establish_session / the retry loop / requests / close_session against a '
        'reference IPMI v1.5 BMC session state machine: handshake order against ANY peer (ping, Get Channel Auth '
        'Capabilities, Get Session Challenge, Activate Session, Set Session Privilege Level; each at most '
        'max_retries+1 times); for every conforming BMC configuration, every number of requests n and every loss '
@@ -77,7 +77,7 @@ ROWS = {
        'authentication choice is the strongest of offered-and-implemented for every capability byte, over the '
        'preference tuple and the implemented set regenerated from messaging.py / rmcp.py on every run; the '
        'statement-level shape of establish_session / close_session / the request builders is re-read from the AST '
-       '(Gen/SessionShape.lean, theorem handshake_shape).',
+       '(Gen/SessionShape.lean, theorem handshake_shape); the clean-up close after a fault (silence over the whole retry budget or an error completion code) at ANY handshake step returns, sends Close Session for the granted id iff one was granted and leaves no session open on the BMC (close_after_failed_open, close_after_failed_open_bmc); when the BMC offers no authentication type nothing follows the capabilities exchange and the outcome is NotSupportedError (auth_none_offered_no_request); as-shipped counter-example theorems for both.',
   note='translators harness/translate/rmcp.py, session.py; hand-written model Model/Session.lean tied per datagram byte for byte (the '
        'real Rmcp talks through a fake socket to the compiled Lean reference BMC, the same script is replayed to the '
        'model); reference BMC Spec/BmcSession.lean is a reading of IPMI v1.5 6.11-6.12; digest function is a parameter; '
@@ -96,10 +96,10 @@ ROWS = {
  'C10': dict(
   text='Lean theorems for every device content, area size, offset, length and per-request limit >= 2: read_fru_data '
        'returns exactly the stored slice, the full read the whole area, every request names the caller\'s FRU id, '
-       'write stores the bytes contiguously and raises on a short acknowledgement. The loops of fru.py are translated '
+       'write stores the bytes contiguously and raises on a short acknowledgement; a write of which the first k bytes were stored before it failed, resumed from offset+k, leaves what one complete write stores (write_resumed_exact). The loops of fru.py are translated '
        'from the AST on every run (Gen/Loops10.lean) and run against a Lean reference device.',
   note='translator harness/translate/loops10.py; reference device Spec/FruDevice.lean (rejects or serves short); area '
-       'parsers are C15; differential run compares outcome, bytes, full request trace and final device state',
+       'parsers are C15; differential run compares outcome, bytes, full request trace and final device state; history stream: every single case again as 2nd operation of one Ipmi object, directed and random sequences of 2..6 operations incl. refused reads and writes that fault at chunk k (Spec.Fru.respondF) and are resumed, each step judged against the contents at its start and compared with the stateless model',
   tech='Lean 4 proof (loop invariant: bytes so far = storage prefix) + AST translator + differential correspondence against a reference device'),
  'C11': dict(
   text='Lean theorems over every well-formed reference SDR device (two stores, records of 5..260 bytes, any ids, any '
@@ -112,7 +112,7 @@ ROWS = {
        'call-site table (which reserve function each store uses) are regenerated from the source on every run.',
   note='translator harness/translate/loops11.py (shared with C13); Model/SdrXfer.lean hand-written, tied by a differential '
        'run on outcome, bytes and full request trace; reference device Spec/SdrDevice.lean with a Python twin re-validated '
-       'against it on every trace; completion proved for a device without transient codes and <= 2 cancellations (tight)',
+       'against it on every trace; completion proved for a device without transient codes and <= 2 cancellations (tight); history stream on one Ipmi object over both stores (A, then B with a cancellation or transient before every request index, then back to A; random sequences): each step judged by the same oracles and equal to a fresh object\'s run, which is what the model computes',
   tech='Lean 4 proof (loop invariants by induction on the retry budgets, chain induction for listings, trace invariant over an arbitrary transport) + AST translator + differential correspondence against a reference device'),
  'C12': dict(
   text='Lean theorems for every log, partial-read limit and script of concurrent changes: entries are returned exactly, '
@@ -160,12 +160,12 @@ ROWS = {
        'a covered byte is rejected. Masks, shifts, BCD map, dispatch constants and length guards are regenerated from '
        'fru.py/fields.py on every run; images are encoded by an independent Lean encoder written from the storage definition.',
   note='translator harness/translate/fru.py; Model/FruParse.lean hand-written and tied by differential run (bytes, '
-       'array, list, file, device path); datetime arithmetic modelled',
+       'array, list, file, device path); datetime arithmetic modelled; device histories on one long-lived Ipmi object: image A read, contents replaced by image B behind the back of the library / by a complete / a faulted-and-resumed / a tail-first write_fru_data, other FRU ids in between, read again => B\'s view',
   tech='Lean 4 proof (parser/encoder inversion by induction on fields and records; checksum algebra) + translator + differential correspondence'),
  'C16': dict(
-  text='42 Lean theorems: for each of the eight record kinds parse(encode r) = r for every abstract record; 10-bit M, B, '
+  text='47 Lean theorems: for each of the eight record kinds parse(encode r) = r for every abstract record; 10-bit M, B, '
        'accuracy and 4-bit exponents are reassembled and sign-extended for all byte values; the type byte alone '
-       'selects the record class. Every mask / shift / or / sign-extension expression of the seven _from_data methods, '
+       'selects the record class; BCD plus id strings in all sixteen codes of IPMI 43.15 (the SDR table is regenerated from TypeLengthString.SDR_BCD_PLUS, theorem bcd_plus_sdr_table); channel number [7:4] of the FRU device locator and of the MC confirmation record with device revision [3:0]. Every mask / shift / or / sign-extension expression of the seven _from_data methods, '
        '_common_record_key, _device_id_string, _convert_complement (sdr.py) and of TypeLengthString._from_data / '
        '_unpack6bitascii (fields.py) is regenerated from the Python AST on every run (Gen/SdrExpr.lean) and proved '
        'equal to the expression the model uses at that place (gen_* theorems), together with the order and sizes of '
@@ -174,12 +174,12 @@ ROWS = {
        'grammar, fail closed); the control skeleton of Model/SdrParse.lean (which popped byte feeds which expression, '
        'short-buffer DecodingError, exception kinds), pop_unsigned_int, _decode_capabilities and bcd_decode are '
        'hand-written and tied by the differential run against the real SdrCommon.from_data on list/tuple/bytes/array; '
-       'parsed results are kept and re-read after later parses (no state shared between records)',
+       'parsed results are kept and re-read after later parses (no state shared between records); decoder selection of the SDR / FRU path and the sdr flag plumbing are read by sdrexpr.py; attributes the property does not enumerate (capabilities, global_initialization, OEM key) are compared with the model only',
   tech='Lean 4 proof (bit-field reassembly lemmas, per-kind inversion, rfl / kernel sweeps against AST-generated expressions) + AST expression translator + differential correspondence'),
  'C17': dict(
   text='Lean theorems over exact rationals: forward conversion is L[(M*x+B*10^K1)*10^K2] with x read per analog format, '
        'None maps to None, and for linear sensors with M != 0 the inverse recovers every raw byte except one\'s-complement '
-       'negative zero (proved for all M, B, K1, K2). The sign conversions, the argument (M*x + B*10^K1)*10^K2, the inverse '
+       'negative zero (proved for all M, B, K1, K2); all twelve linearisations, the cube root assumed only to be a real cube root (defined everywhere, odd: Fns.RealCubeRoot; oracle math.cbrt; counter-example theorems cubert_negative_counterexample, shipped_cubert_rejects_negatives for math.pow(x, 1/3)). The sign conversions, the argument (M*x + B*10^K1)*10^K2, the inverse '
        'formula, the two negative encodings with the variable their "< 0" test reads, both guards and '
        '_convert_complement are regenerated from the AST of sdr.py on every run (Gen/SensorExpr.lean) and proved equal '
        'to the model\'s expressions (gen_*_eq). Tie: all 256 exponent pairs x formats x raw bytes against the real '
@@ -196,7 +196,7 @@ ROWS = {
        '"long duration in progress", aborts with HpmError on any other code. Offsets, lengths, block size, masks and '
        'codes are regenerated from hpm.py on every run (fail closed).',
   note='translator harness/translate/hpm.py; virtual clock; MD5 trailer is a parameter; tie by differential run with an '
-       'independent image encoder cross-checked against the Lean encoder',
+       'independent image encoder cross-checked against the Lean encoder; histories of 2..5 images written and parsed in one process (same path / same size / pinned mtime / other paths, through UpgradeImage, Hpm.open_upgrade_image and get_upgrade_version_from_file), each run in a pristine forked child (harness/sim/pristine.py), kept results re-read at the end',
   tech='Lean 4 proof (parser inversion; upload-loop invariant: sent = prefix of binary) + translator + differential correspondence'),
  'C19': dict(
   text='Lean theorems against a Lean model of POSIX sh word splitting/quoting: for every user/password string without '
@@ -204,7 +204,7 @@ ROWS = {
        'reply parser inverts ipmitool\'s hex printer for any length and wrapping; rsp=0xNN, timeout, connection and '
        'long-password lines map to their errors. String constants regenerated from the source each run.',
   note='translator harness/translate/ipmitool.py; Spec.Sh is validated against the real /bin/sh (dash) on every generated '
-       'command line through an argv-printing stub; ipmitool output format taken from its sources',
+       'command line through an argv-printing stub; ipmitool output format taken from its sources; histories of 2..4 calls on ONE Ipmitool object with credentials / host / privilege / session changed in between, each call judged against the argument vector its CURRENT settings demand (pristine child per history)',
   tech='Lean 4 proof (shell-quoting inertness by induction on the string; printer/parser inversion) + translator + correspondence through the real shell'),
  'C20': dict(
   text='Lean theorems over the command table regenerated from pyipmi/ipmitool.py: every entry resolves to an existing '
@@ -213,7 +213,7 @@ ROWS = {
        'sends/prints exactly, errors exit non-zero. Tie: main() run in-process for every entry against the direct API '
        'call on an identical BMC stub.',
   note='translator harness/translate/cli.py; getopt/int(s,0) modelled in Lean and tied to CPython by the run; "completes '
-       'without a Python error" is observed per entry, not proved',
+       'without a Python error" is checked per entry on the stub profiles (a Python error on a fault-free run is a violation), not proved; histories of 2..4 consecutive main() runs in one process with every option given in one run and absent in the next: each run must equal the same run alone in a new process',
   tech='Lean 4 proof (decide +kernel over generated table; lookup/getopt lemmas) + translator + differential correspondence (CLI vs API)'),
  'C07': dict(
   text='90 Lean theorems about per-operation models of 75 pyipmi.Ipmi operations (device id/GUID/watchdog, chassis and '
